@@ -38,6 +38,19 @@ def resolution_case(name, start, end, month):
             bad.append({"now": str(now), "problem": "lead moved backwards"})
             break
         prev_idx = idx
+        # reading the term structure (contracts behind the lead) at the same instant does not disturb the resolution of the lead
+        for k in (1, 2):
+            if want + k < len(ch.contracts):
+                far = ch.lead_contract(now, month=k)
+                if far is not ch.contracts[want + k]:
+                    bad.append({"now": str(now), "month_argument": k, "got": far.symbol, "expected": ch.contracts[want + k].symbol})
+                    break
+        if bad:
+            break
+        again = ch.lead_contract(now)
+        if again is not lead:
+            bad.append({"now": str(now), "lead": lead.symbol, "after_term_structure_lookup": again.symbol})
+            break
         # the same instance, resolved through the process-wide clock and static hashing, agrees
         C.AbstractContract.now = now
         sh = ch.static_hashing()
